@@ -424,6 +424,21 @@ func (w *writerA) maskImpl(rule string) {
 			for a.Kind == core.KConv {
 				a = a.Args[0]
 			}
+			if a.Kind == core.KIndexAddr {
+				// slice-consuming form: *(*uintptr)(&b[k]) while the path knows len(b) - k >= W
+				x := p.X
+				room := x.Len(a.Args[0])
+				if z, isC := a.Args[1].Int64(); !isC || z != 0 {
+					room = x.Bin(token.SUB, room, x.StripWiden(a.Args[1]), types.Typ[types.Int])
+				}
+				if !knowsGe(p, ev.NLits, W, is(room)) {
+					ok, why = false, fmt.Sprintf("the word store at &b[k] is not guarded by len(b)-k >= %d", W)
+				}
+				if pt, isP := ev.Addr.Type.Underlying().(*types.Pointer); !isP || c.P.Pkg.TypesSizes.Sizeof(pt.Elem()) != W {
+					ok, why = false, "the raw store is wider than the guarded room"
+				}
+				continue
+			}
 			if a.Kind != core.KBin || a.Op != token.ADD {
 				ok, why = false, "raw pointer store whose address is not base + offset"
 				continue
